@@ -128,7 +128,7 @@ def run_proofs(prop, mod, tier, info, only=None):
     else:
         # the pool is given a deadline: a worker that never reports (seen once, on a heavily loaded machine) must end in an
         # `undecided` verdict, not in a check that never returns
-        deadline = int(os.environ.get('VERIF_PROOF_DEADLINE_S', '0') or 0) or (2400 if tier != 'thorough' else 9000)
+        deadline = int(os.environ.get('VERIF_PROOF_DEADLINE_S', '0') or 0) or (900 if tier != 'thorough' else 6000)
         ex = ProcessPoolExecutor(max_workers=min(jobs, len(work)), mp_context=mp.get_context('spawn'))
         futs = [ex.submit(prove_one, w) for w in work]
         t_end = time.time() + deadline
@@ -146,10 +146,17 @@ def run_proofs(prop, mod, tier, info, only=None):
                 except Exception:  # noqa: BLE001
                     pass
             ex.shutdown(wait=False, cancel_futures=True)
+            # the functions without a verdict are verified again, one after the other, in this process (slower, but a stalled pool then
+            # costs time and not the verdict); only if that fails too the function is reported `undecided`
             for key, why in late:
-                results.append(({'function': key, 'source_sha256': None, 'subset': 'no-verdict', 'detail': why, 'paths': 0, 'obligations': 0, 'symex_s': 0},
-                                [Item(id=f'{prop}/{key}/no-verdict', kind='P', status='undecided', function=key,
-                                      note='the proof worker for this function did not report a verdict', detail=why)], []))
+                w = next(x for x in work if x[0] == key)
+                try:
+                    results.append(prove_one(w))
+                except Exception as e:  # noqa: BLE001
+                    why = f'{why}; in-process retry: {type(e).__name__}: {e}'[:300]
+                    results.append(({'function': key, 'source_sha256': None, 'subset': 'no-verdict', 'detail': why, 'paths': 0, 'obligations': 0, 'symex_s': 0},
+                                    [Item(id=f'{prop}/{key}/no-verdict', kind='P', status='undecided', function=key,
+                                          note='the proof worker for this function did not report a verdict', detail=why)], []))
         else:
             ex.shutdown(wait=True)
     for finfo, its, assumptions in results:
